@@ -16,7 +16,8 @@ import (
 type stressCase struct {
 	G     int    `json:"goroutines"`
 	Max   int    `json:"max_tokens"`
-	Phase string `json:"phase"` // bucket | balancer
+	Phase string `json:"phase"` // bucket | balancer | refill-due
+	Idle  int    `json:"idle_periods,omitempty"` // refill-due: whole refill periods the drained client stays idle before the burst
 	Round int    `json:"round,omitempty"`
 }
 
@@ -85,14 +86,62 @@ func stressRound(c stressCase) (admitted, forwarded int, err string) {
 	}
 }
 
+// refillDueRound: one client drains its bucket, stays idle for at least c.Idle refill periods (3 ms
+// each, real time), then G goroutines hit the bucket at once - the instant at which the refill that
+// has become due is credited. The statement pins the burst from both sides: at most max_tokens (+
+// what the interval clause grants for the time the burst took) and at most floor(T/r)+1 beyond the first max_tokens within the whole round of length T
+// (measured generously: to the end of the burst); at least min(idle periods, max_tokens, G).
+func refillDueRound(c stressCase) string {
+	const r = 3 * time.Millisecond
+	rl := ratelimiter.NewTokenBucketRateLimiter(c.Max, r)
+	start := time.Now()
+	for i := 0; i < c.Max; i++ {
+		if !rl.Allow("10.0.0.9") {
+			if time.Since(start) < r {
+				return fmt.Sprintf("fresh client: call %d of its first burst of max_tokens=%d was refused", i+1, c.Max)
+			}
+			return "" // the machine stalled for a whole period in the middle of the drain: nothing to conclude
+		}
+	}
+	drained := time.Now()
+	time.Sleep(time.Duration(c.Idle)*r + 200*time.Microsecond)
+	idle := time.Since(drained)
+	burstStart := time.Now()
+	var adm int32
+	barrier(c.G, func(int) {
+		if rl.Allow("10.0.0.9") {
+			atomic.AddInt32(&adm, 1)
+		}
+	})
+	T := time.Since(start)
+	a := int(adm)
+	// the G calls are not one instant: over the D they took, the interval clause allows
+	// max_tokens + floor(D/r) + 1 (equal to the burst clause + 1 when D < r)
+	D := time.Since(burstStart)
+	if hi := c.Max + int(D/r) + 1; a > hi {
+		return fmt.Sprintf("a drained client that had been idle for %v (refill %v) got %d of %d requests admitted that were made within %v; max_tokens is %d, the bound for an interval of that length is %d", idle, r, a, c.G, D, c.Max, hi)
+	}
+	if hi := int(T/r) + 1; a > hi {
+		return fmt.Sprintf("%d requests admitted beyond the first max_tokens=%d within %v (refill %v): the bound is floor(T/r)+1 = %d", a, c.Max, T, r, hi)
+	}
+	if lo := min(int(idle/r), c.Max, c.G); a < lo {
+		return fmt.Sprintf("a client idle for %v (= %d whole refill periods of %v) got only %d of %d simultaneous requests admitted; min(k, max_tokens=%d, G) = %d", idle, int(idle/r), r, a, c.G, c.Max, lo)
+	}
+	return ""
+}
+
 func TestC09ConcurrentBurst(t *testing.T) {
 	const name = "limiter-concurrent-burst"
 	sub := lab.Sub(name, "spin-barrier stress on real threads: G in {2,3,4,8,16,32,64} goroutines hit one fresh bucket at once, max_tokens 1..5, refill 1h; "+
 		"phase 'bucket': TokenBucketRateLimiter.Allow directly; phase 'balancer': G requests of one client address (distinct ports) through the real LoadBalancer.ServeHTTP with scripted backends; "+
-		"oracle: exactly min(G,max_tokens) admitted (<= by the burst bound, >= by the fresh-client clause), and through the balancer exactly that many requests reach a backend (429 <=> not forwarded); "+
+		"phase 'refill-due': the client drains its bucket (refill 3 ms), stays idle for 1..max_tokens+1 periods of real time, then the G goroutines hit it at once, i.e. at the instant the due refill is credited: admitted <= max_tokens + floor(D/r) + 1 for the D the burst took, <= floor(T/r)+1 beyond the first max_tokens over the whole round, >= min(idle periods, max_tokens, G); "+
+		"oracle (other phases): exactly min(G,max_tokens) admitted (<= by the burst bound, >= by the fresh-client clause), and through the balancer exactly that many requests reach a backend (429 <=> not forwarded); "+
 		"non-trivial = more contenders than tokens; distinct = distinct (G,max_tokens,phase) cells (rounds repeat cells to sample schedules)")
 	lab.Assume("C09 concurrency: interleavings are sampled by real parallelism behind a spin barrier, not enumerated")
 	check := func(c stressCase) string {
+		if c.Phase == "refill-due" {
+			return refillDueRound(c)
+		}
 		a, f, e := stressRound(c)
 		want := min(c.G, c.Max)
 		switch {
@@ -122,8 +171,11 @@ func TestC09ConcurrentBurst(t *testing.T) {
 		for r := 0; r < rounds; r++ {
 			k := r + lab.Shard()*7919 + int(lab.Seed()%1000)
 			c := stressCase{G: gs[k%len(gs)], Max: 1 + (k/7)%5, Phase: phase, Round: r}
+			if phase == "refill-due" {
+				c.Idle = 1 + (k/35)%(c.Max+1)
+			}
 			v := check(c)
-			sub.Case(stressCase{G: c.G, Max: c.Max, Phase: phase}, c.G > c.Max, fmt.Sprintf("G%d", c.G), "phase-"+phase, fmt.Sprintf("max%d", c.Max))
+			sub.Case(stressCase{G: c.G, Max: c.Max, Phase: phase, Idle: c.Idle}, c.G > c.Max, fmt.Sprintf("G%d", c.G), "phase-"+phase, fmt.Sprintf("max%d", c.Max))
 			if v != "" {
 				lab.Violation(t, name, c, "%s", v)
 			}
@@ -131,4 +183,5 @@ func TestC09ConcurrentBurst(t *testing.T) {
 	}
 	run("bucket", lab.Share(lab.Scale(20000, 400000)))
 	run("balancer", lab.Share(lab.Scale(4000, 80000)))
+	run("refill-due", lab.Share(lab.Scale(2400, 48000)))
 }
